@@ -78,6 +78,7 @@ def trace_validation(run) -> None:
 
 
 PROP = Prop(
+    technique='explicit TLA+ specification model-checked with TLC; TLC-generated histories replayed into the implementation (spec->code) and recorded config_context traces validated by TLC (code->spec)',
     id="C18",
     title="Configuration is scoped, honoured, and validation depth only removes checks",
     slices=[CONFIG],
